@@ -54,7 +54,30 @@ type cplan struct {
 	File    map[string]int `json:"file,omitempty"` // what the operator put in the file before the reload op(s)
 	Gate    string         `json:"gate,omitempty"` // "", "tcp", "udp": hold that live store's lock while the lead op runs
 	Lead    int            `json:"lead"`           // index of the op that runs first under the gate
+	Tight   bool           `json:"tight,omitempty"` // the next op is issued by the goroutine that releases the gate
 	Reps    int            `json:"reps"`
+}
+
+// keys lists every universe key index the plan mentions (the only keys that can be live).
+func (p cplan) keys() []int {
+	seen := map[int]bool{}
+	for _, k := range p.Initial {
+		seen[k] = true
+	}
+	for _, k := range p.File {
+		seen[k] = true
+	}
+	for _, o := range p.Ops {
+		if o.Op == "add" || o.Op == "update" {
+			seen[o.Key] = true
+		}
+	}
+	out := make([]int, 0, len(seen))
+	for k := range seen {
+		out = append(out, k)
+	}
+	sort.Ints(out)
+	return out
 }
 
 func (p cplan) String() string { b, _ := json.Marshal(p); return string(b) }
@@ -102,6 +125,12 @@ func drawCPlan(rt *rapid.T, allowReload, allowSharedKeys bool) cplan {
 		o.Spin = rapid.IntRange(0, 40).Draw(rt, "spin")
 		p.Ops = append(p.Ops, o)
 	}
+	// one plan in eight: two reloads in flight together (signal + API request), plus what was drawn
+	if allowReload && rapid.IntRange(0, 7).Draw(rt, "tworeloads") == 0 {
+		p.Ops[0] = cop{Op: "reload", Spin: p.Ops[0].Spin}
+		p.Ops[1] = cop{Op: "reload", Spin: p.Ops[1].Spin}
+		hasReload = true
+	}
 	if hasReload {
 		p.File = drawUsers(rt, "file", true)
 		if !allowSharedKeys {
@@ -115,6 +144,7 @@ func drawCPlan(rt *rapid.T, allowReload, allowSharedKeys bool) cplan {
 		p.Gate = "udp"
 	}
 	p.Lead = rapid.IntRange(0, n-1).Draw(rt, "lead")
+	p.Tight = p.Gate != "" && rapid.IntRange(0, 2).Draw(rt, "tight") != 0
 	return p
 }
 
@@ -252,8 +282,11 @@ func permutations(n int) [][]int {
 
 // liveView probes every universe key on every transport and reports the first disagreement
 // with the given user set ("" if none).
-func liveView(r *credx.Rig, kl int, mode credx.Mode, set map[string][]byte, maxKey int) string {
-	for i := 0; i < maxKey; i++ {
+func liveView(r *credx.Rig, kl int, mode credx.Mode, set map[string][]byte, keys []int) string {
+	if raceChild {
+		return ""
+	}
+	for _, i := range keys {
 		key := credx.Key(kl, i)
 		want, listed := "", false
 		for n, k := range set {
@@ -286,6 +319,8 @@ func liveView(r *credx.Rig, kl int, mode credx.Mode, set map[string][]byte, maxK
 	}
 	return ""
 }
+
+var raceChild = os.Getenv("VERIF_C08_RACE_CHILD") != ""
 
 type ctrial struct {
 	violation string
@@ -337,6 +372,25 @@ func runTrial(c *crig, p cplan) ctrial {
 		}
 		acks[i] = ack{code, string(body)}
 	}
+	issueDirect := func(i int) {
+		o := p.Ops[i]
+		var err error
+		switch o.Op {
+		case "add":
+			err = r.MS.AddCredential(o.Name, credx.Key(kl, o.Key))
+		case "update":
+			err = r.MS.UpdateCredential(o.Name, credx.Key(kl, o.Key))
+		case "delete":
+			err = r.MS.DeleteCredential(o.Name)
+		case "reload":
+			err = r.MS.LoadFromFile()
+		}
+		if err != nil {
+			acks[i] = ack{400, err.Error()}
+		} else {
+			acks[i] = ack{204, "direct"}
+		}
+	}
 	var wg sync.WaitGroup
 	if p.Gate == "" {
 		start := make(chan struct{})
@@ -345,30 +399,55 @@ func runTrial(c *crig, p cplan) ctrial {
 		}
 		close(start)
 	} else {
-		store := &r.TCP.CredStore
+		var store *ss2022.CredStore
 		if p.Gate == "udp" {
 			store = &r.UDP.CredStore
+		} else {
+			store = &r.TCP.CredStore
 		}
 		gate, held := make(chan struct{}), make(chan struct{})
-		wg.Go(func() { store.UpdateUserLookupMap(func(ss2022.UserLookupMap) { close(held); <-gate }) })
+		follower := -1
+		if p.Tight {
+			follower = (p.Lead + 1) % n
+		}
+		wg.Go(func() {
+			store.UpdateUserLookupMap(func(ss2022.UserLookupMap) { close(held); <-gate })
+			// Tight mode: the goroutine that has just released the store lock issues the next
+			// request itself (straight at the manager, as the handler would), while the lead
+			// request, queued on that lock, has been woken but is not running yet.
+			if follower >= 0 {
+				issueDirect(follower)
+			}
+		})
 		<-held
 		leadDone := make(chan struct{})
 		wg.Go(func() { issue(p.Lead); close(leadDone) })
 		// give the lead request time to finish its part under the manager lock and queue on the
-		// store lock (or to be refused)
+		// store lock (or to be refused): watch the manager's cache through the exported getter
+		_, leadState := modelApply(init, p.Ops[p.Lead], kl, file)
 		t0 := time.Now()
 	wait:
-		for time.Since(t0) < 200*time.Microsecond {
+		for time.Since(t0) < 2*time.Millisecond {
 			select {
 			case <-leadDone:
 				break wait
 			default:
-				runtime.Gosched()
 			}
+			cur := map[string][]byte{}
+			for _, uc := range r.MS.Credentials() {
+				cur[uc.Name] = uc.UPSK
+			}
+			if credx.SameUsers(cur, leadState) {
+				for j := 0; j < 10; j++ {
+					runtime.Gosched()
+				}
+				break wait
+			}
+			runtime.Gosched()
 		}
 		close(gate)
 		for i := range p.Ops {
-			if i != p.Lead {
+			if i != p.Lead && i != follower {
 				wg.Go(func() { issue(i) })
 			}
 		}
@@ -411,10 +490,12 @@ func runTrial(c *crig, p cplan) ctrial {
 			desc(), credx.Show(init, kl), credx.Show(file, kl), credx.Show(listed, kl))
 		return tr
 	}
-	if d := liveView(r, kl, p.Mode, listed, 2*len(names)); d != "" {
+	// In the race-detector child the handshake probes are skipped: they cost ~100x there (64 KiB
+	// buffers under tsan) and the same comparison runs in the ordinary build of this test.
+	if d := liveView(r, kl, p.Mode, listed, p.keys()); !raceChild && d != "" {
 		tr.sig = sigDiverged
-		tr.violation = fmt.Sprintf("after concurrent %s (all returned) from %s (file %s, gate=%q lead=%d) the API lists %s but %s",
-			desc(), credx.Show(init, kl), credx.Show(file, kl), p.Gate, p.Lead, credx.Show(listed, kl), d)
+		tr.violation = fmt.Sprintf("after concurrent %s (all returned) from %s (file %s, gate=%q lead=%d tight=%v) the API lists %s but %s",
+			desc(), credx.Show(init, kl), credx.Show(file, kl), p.Gate, p.Lead, p.Tight, credx.Show(listed, kl), d)
 		return tr
 	}
 	var pat []string
@@ -519,6 +600,9 @@ func runCPlan(rigs map[string]*crig, p cplan, rec *ev.Recorder) string {
 		}
 		if p.Gate != "" {
 			labels = append(labels, "gated", "gate/"+p.Gate)
+			if p.Tight {
+				labels = append(labels, "gated-tight")
+			}
 		} else {
 			labels = append(labels, "ungated")
 		}
@@ -633,7 +717,7 @@ func runSavedTrial(p cplan) (violation string, nontrivial bool, pattern string) 
 		}
 		time.Sleep(300 * time.Millisecond)
 	}
-	if d := liveView(c.rig, kl, p.Mode, listed, 2*len(names)); d != "" {
+	if d := liveView(c.rig, kl, p.Mode, listed, p.keys()); d != "" {
 		return fmt.Sprintf("SIG=C08/%s after the save: %s", sigDiverged, d), false, ""
 	}
 	return "", nontrivial, tr.pattern
